@@ -12,7 +12,8 @@
 (* compose under concatenation, so reassembly is checked on the real bytes.    *)
 EXTENDS TraceBase, FiniteSets, MuxFrames
 
-TSess == 1..40
+MaxS == 40
+TSess == 1..(2 * MaxS)      \* (connection, session) pairs: connection c in 1..2, session s in 1..MaxS
 Dirs == {"c2s", "s2c"}
 P1 == 32749
 P2 == 32719
@@ -43,6 +44,9 @@ DCat(a, b) == [n  |-> a.n + b.n,
                h1 |-> (a.h1 * PowMod(B, b.n, P1) + b.h1) % P1,
                h2 |-> (a.h2 * PowMod(B, b.n, P2) + b.h2) % P2]
 Dig == [n |-> Ev.n, h1 |-> Ev.h1, h2 |-> Ev.h2]
+\* session ids are per connection: the same ids are in use on both connections
+SK == (Ev.c - 1) * MaxS + Ev.s
+ValidSess == Ev.c \in 1..2 /\ Ev.s \in 1..MaxS
 
 Init0 ==
     /\ sentQ = [d \in Dirs |-> [s \in TSess |-> <<>>]]
@@ -65,10 +69,10 @@ TrReset ==
 
 TrSend ==
     /\ IsEvent("Send")
-    /\ Ev.dir \in Dirs /\ Ev.s \in TSess
-    /\ Ev.seq = nseq[Ev.dir][Ev.s] + 1
-    /\ nseq' = [nseq EXCEPT ![Ev.dir][Ev.s] = @ + 1]
-    /\ sentQ' = [sentQ EXCEPT ![Ev.dir][Ev.s] = Append(@, Dig)]
+    /\ Ev.dir \in Dirs /\ ValidSess
+    /\ Ev.seq = nseq[Ev.dir][SK] + 1
+    /\ nseq' = [nseq EXCEPT ![Ev.dir][SK] = @ + 1]
+    /\ sentQ' = [sentQ EXCEPT ![Ev.dir][SK] = Append(@, Dig)]
     /\ oversize' = (oversize \/ Ev.n > MaxSize)
     /\ UNCHANGED <<partial, delivQ, ndeliv>>
 
@@ -76,28 +80,28 @@ TrSend ==
 \* completely on the wire; a final frame must complete exactly that message
 TrFrame ==
     /\ IsEvent("Frame")
-    /\ Ev.dir \in Dirs /\ Ev.s \in TSess
+    /\ Ev.dir \in Dirs /\ ValidSess
     /\ Ev.fin \in {0, 1}
-    /\ Len(sentQ[Ev.dir][Ev.s]) > 0
+    /\ Len(sentQ[Ev.dir][SK]) > 0
     /\ LET d == Ev.dir
-           r == RecvFrame(partial[d], [s |-> Ev.s, data |-> Dig, final |-> (Ev.fin = 1)], DCat, DEmpty)
-           head == Head(sentQ[d][Ev.s]) IN
+           r == RecvFrame(partial[d], [s |-> SK, data |-> Dig, final |-> (Ev.fin = 1)], DCat, DEmpty)
+           head == Head(sentQ[d][SK]) IN
         /\ partial' = [partial EXCEPT ![d] = r.partial]
         /\ IF r.out = <<>>
-           THEN /\ r.partial[Ev.s].n <= head.n          \* never more than the message has
+           THEN /\ r.partial[SK].n <= head.n          \* never more than the message has
                 /\ UNCHANGED <<sentQ, delivQ>>
            ELSE /\ r.out[1] = head                        \* complete and unaltered
-                /\ sentQ' = [sentQ EXCEPT ![d][Ev.s] = Tail(@)]
-                /\ delivQ' = [delivQ EXCEPT ![d][Ev.s] = Append(@, r.out[1])]
+                /\ sentQ' = [sentQ EXCEPT ![d][SK] = Tail(@)]
+                /\ delivQ' = [delivQ EXCEPT ![d][SK] = Append(@, r.out[1])]
     /\ UNCHANGED <<nseq, ndeliv, oversize>>
 
 \* the receiver of session s is handed a message: the oldest reassembled one, unaltered
 TrDeliver ==
     /\ IsEvent("Deliver")
-    /\ Ev.dir \in Dirs /\ Ev.s \in TSess
-    /\ Len(delivQ[Ev.dir][Ev.s]) > 0
-    /\ Head(delivQ[Ev.dir][Ev.s]) = Dig
-    /\ delivQ' = [delivQ EXCEPT ![Ev.dir][Ev.s] = Tail(@)]
+    /\ Ev.dir \in Dirs /\ ValidSess
+    /\ Len(delivQ[Ev.dir][SK]) > 0
+    /\ Head(delivQ[Ev.dir][SK]) = Dig
+    /\ delivQ' = [delivQ EXCEPT ![Ev.dir][SK] = Tail(@)]
     /\ ndeliv' = ndeliv + 1
     /\ UNCHANGED <<sentQ, partial, nseq, oversize>>
 
